@@ -490,15 +490,18 @@ func (vc *VC) specQuant(sc *SpecScope, x *SQuant) *Value {
 	} else {
 		qbody = smtAnd(facts, body.Term)
 	}
-	qbody = normalizeQuant(qbody, boundNames)
-	if pats := inferPatterns(qbody, boundNames); pats != "" && qbody != "true" && qbody != "false" {
-		qbody = "(! " + qbody + " " + pats + " :qid " + qidOf(x) + ")"
+	var parts []string
+	for _, variant := range normalizeQuant(qbody, boundNames) {
+		if pats := inferPatterns(variant, boundNames); pats != "" && variant != "true" && variant != "false" {
+			variant = "(! " + variant + " " + pats + " :qid " + qidOf(x) + ")"
+		}
+		if x.Forall {
+			parts = append(parts, "(forall ("+strings.Join(binders, " ")+") "+variant+")")
+		} else {
+			parts = append(parts, "(exists ("+strings.Join(binders, " ")+") "+variant+")")
+		}
 	}
-	if x.Forall {
-		t = "(forall (" + strings.Join(binders, " ") + ") " + qbody + ")"
-	} else {
-		t = "(exists (" + strings.Join(binders, " ") + ") " + qbody + ")"
-	}
+	t = smtAnd(parts...)
 	return boolV(t)
 }
 
